@@ -20,7 +20,7 @@ PROP = dict(
 )
 
 CLAIM = dict(
-    text="Lean theorems: the three flattening functions (stripLineBreaks, stripLineBreaksSvg, the return-site line-feed flattening) never output LF for any input; the output of the payload flattening is, for every input, the in-order concatenation of the input's lines with only white-space runes removed at line ends (strip_structure / stripSvg_structure); framing by LF recovers any list of returned strings. The executable content comparison (Spec.Strip.checkPayload/checkField) is evaluated on the real encoders' output for every payload and pass-through field; the link contentEq ⇐ structure theorem is validated by correspondence, not proved.",
+    text="Lean theorems: the three flattening functions (stripLineBreaks, stripLineBreaksSvg, the return-site line-feed flattening) never output LF for any input; the output of the payload flattening is, for every input, the in-order concatenation of the input's lines with only white-space runes removed at line ends (strip_structure / stripSvg_structure); framing by LF recovers any list of returned strings. strip_payload / stripSvg_payload: the executable statement the check evaluates on the real output (Spec.Strip.checkPayload: one line, white-space-free content equal) holds of the model for every input whose lines do not start, once trimmed, with a UTF-8 continuation byte (JoinSafe; implied by valid UTF-8: strip_content_utf8) and for SVG for every byte string; contentEq_invalid_utf8_counterexample shows the guard is needed (E2 80 LF 85 41 joins into U+2005) — Go strings from protobuf/JSON are valid UTF-8. The same predicates are evaluated on the real encoders' output for every payload and pass-through field.",
     note=TB + "That every string the two encoders return passes through the flattening is established by the correspondence over all field kinds (and by the C01/C03 encoder models where built), not by a theorem over the full encoders.",
     technique="Lean 4 proof (list induction over lines, trim decomposition) + model/implementation correspondence through the public encoders",
 )
